@@ -260,6 +260,7 @@ pub fn run_case(case: &Case, keep: Option<&BTreeSet<usize>>, scratch: &Path, cas
             obs_seed: case.obs_seed.wrapping_add(i as u64 * if case.mode == Mode::Shared { 7 } else { 0 }),
             scan_cases: if case.profile.name == "scan" { 6 } else { 2 },
             fifo: case.mode == Mode::Fifo,
+            fifo_desc: case.mode == Mode::Fifo && case.obs_seed % 2 == 1,
             known: known.clone(),
             focus: focus.clone(),
             filter_large_len: case.cfgs.iter().filter_map(|c| c.kv.as_ref().map(|k| k.threshold as usize + 3)).max().unwrap_or(300).max(12),
